@@ -24,6 +24,7 @@ func simSchedSeed(s uint64) {
 	simSchedHash = 1469598103934665603
 	simSchedPicks = 0
 	simYields = 0
+	simOps = 0
 	if s != 0 {
 		forcePreemptNS = 1 << 62
 	} else {
@@ -106,18 +107,32 @@ func sync_simOn() bool { return simSchedState != 0 }
 
 //go:linkname sync_simYield internal/sync.runtime_simYield
 func sync_simYield() {
-	if simSchedState == 0 || simYieldNum == 0 {
+	if simSchedState == 0 {
 		return
 	}
 	gp := getg()
 	if gp.bubble == nil || gp.m.curg != gp || gp.m.locks != 0 || gp.m.preemptoff != "" {
 		return
 	}
-	if (simRand()>>33)%simYieldDen < simYieldNum {
+	// Deterministic stand-in for time-slice preemption: a goroutine that keeps
+	// taking locks without ever blocking (a spin that waits for another
+	// goroutine, e.g. yamux's Stream.Read on a session that is shutting down)
+	// is descheduled every simSliceOps lock operations.
+	simOps++
+	if simOps%simSliceOps == 0 {
+		simYields++
+		goyield()
+		return
+	}
+	if simYieldNum != 0 && (simRand()>>33)%simYieldDen < simYieldNum {
 		simYields++
 		goyield()
 	}
 }
+
+const simSliceOps = 2048
+
+var simOps uint64
 
 // simSetTag/simGetTag: a per-goroutine integer inherited by child goroutines
 // (like pprof labels); simnet uses it as "the simulated host this code runs on".
